@@ -13,13 +13,16 @@ const sanitizePasswordPattern = `('(?:[^'\\\n]|\\.)*'|"(?:[^"\\\n]|\\.)*"|[^\s;'
 // What may stand between two tokens: white space and comments.
 const sanitizeGapPattern = `(?:\s|/\*[^*]*\*+(?:[^/*][^*]*\*+)*/|--[^\n]*(?:\n|$))*`
 
+// What must stand between two keywords: at least one white space or comment.
+const sanitizeSepPattern = `(?:\s|/\*[^*]*\*+(?:[^/*][^*]*\*+)*/|--[^\n]*(?:\n|$))+`
+
 var (
 	// SET PASSWORD FOR <user> = <password>: the user name may be quoted and may then
 	// contain '='; white space around '=' is optional.
-	sanitizeSetPassword = regexp.MustCompile(`(?i)password\s+for\s*(?:"(?:[^"\\\n]|\\.)*"|[^="]*)` + sanitizeGapPattern + `=` + sanitizeGapPattern + sanitizePasswordPattern)
+	sanitizeSetPassword = regexp.MustCompile(`(?i)password` + sanitizeSepPattern + `for` + sanitizeGapPattern + `(?:"(?:[^"\\\n]|\\.)*"|[^="]*)` + sanitizeGapPattern + `=` + sanitizeGapPattern + sanitizePasswordPattern)
 
 	// ... WITH PASSWORD <password>: white space before the password is optional.
-	sanitizeCreatePassword = regexp.MustCompile(`(?i)with\s+password` + sanitizeGapPattern + sanitizePasswordPattern)
+	sanitizeCreatePassword = regexp.MustCompile(`(?i)with` + sanitizeSepPattern + `password` + sanitizeGapPattern + sanitizePasswordPattern)
 )
 
 // Sanitize attempts to sanitize passwords out of a raw query.
